@@ -26,6 +26,7 @@ from .scenariomanager import ScenarioManagerHybrid
 from .scenariorunners import HybridRunner
 from .scenariorunners import SdRunner
 from .util.didyoumean import didyoumean
+from .util.floating_point import normalize, scale
 from .visualizations import visualizer
 
 
@@ -566,7 +567,8 @@ class bptk():
         self.session_state["results_log"][step] = simulation_results
 
         # move session step forward
-        self.session_state["step"]=step+dt
+        # advance the clock on the decimal time grid (a bare float addition drifts: 0.1+0.2 = 0.30000000000000004)
+        self.session_state["step"]=normalize(step+dt, dt, self.session_state["starttime"], max(scale(self.session_state["starttime"]), scale(dt)))
 
         return flat_results if flat else simulation_results
 
